@@ -152,6 +152,9 @@ func Bounded(w *vt.W, rng *rand.Rand, nm, maxLen int) {
 		}
 		sym := rng.Intn(2) == 0 && k%3 != 2
 		pairing := k%4 == 1 // a letter scores no better against itself than against another letter (base pairing)
+		// a letter scores a little against itself but some other letter scores far more against it (a matrix that
+		// rewards a particular substitution): taking the diagonal on equal letters is then not always best
+		cross := k%4 == 3
 		m := matrix(5, func(i, j int) int {
 			if i == 0 && j == 0 {
 				return 0
@@ -164,6 +167,12 @@ func Bounded(w *vt.W, rng *rand.Rand, nm, maxLen int) {
 					return []int{-2, -1, 0}[rng.Intn(3)]
 				}
 				return []int{-1, 1, 2}[rng.Intn(3)]
+			}
+			if cross {
+				if i == j {
+					return []int{1, 1, 2}[rng.Intn(3)]
+				}
+				return []int{-1, 2, 3, 5}[rng.Intn(4)]
 			}
 			return subs[rng.Intn(4)]
 		})
@@ -221,6 +230,7 @@ func Random(w *vt.W, rng *rand.Rand, n, maxLen int) {
 		nl := a.Len()
 		match, mismatch, g := 1+rng.Intn(5), -rng.Intn(5), -rng.Intn(6)
 		noisy := rng.Intn(2) == 0
+		crossed := k%7 == 3 && (k/4)%2 == 0
 		if (k/4)%2 == 1 {
 			// within a sweep block (below) the scores swing between gaps being nearly free and gaps being dear, so
 			// that the best alignment under one setting is a poor one under the next
@@ -249,6 +259,10 @@ func Random(w *vt.W, rng *rand.Rand, n, maxLen int) {
 				return g
 			case i == j:
 				return match
+			}
+			if crossed && (i+2*j)%5 == 1 {
+				// a favoured substitution: scores more than a letter against itself
+				return match + 1 + (i+j)%4
 			}
 			if noisy {
 				return mismatch + rng.Intn(3) - 1
